@@ -149,11 +149,48 @@ def search(ctx):
         if w and w["key"] not in seen:
             seen.add(w["key"])
             out.append(w)
+    w = discovery_text_oracle(rng)
+    if w and w["key"] not in seen:
+        out.append(w)
     return out
+
+
+def discovery_text_oracle(rng, only=None):
+    """The discovery window is wall-clock time since the decoder was built — whatever time stamp the INPUT carries:
+    the text formats put the gateway's own stamp (Actisense: seconds of gateway uptime; canboat / Yacht Devices: a
+    date or time of day) on every message. A decoder built just now with network mapping on must withhold data of a
+    source that has not claimed, through every text entry point and for every stamp."""
+    Dec = H._impl()[0]
+    cases = []
+    for up in ("000057.000", "000601.000", "086400.250", "999999.999"):
+        cases.append(("actisense", f"A{up} 07FF3 1F112 01102700007FFFFD", "decode_actisense_string"))
+    for ts in ("2020-01-01-00:00:00.000", "2099-12-31-23:59:59.999", "1999-01-01T00:00:00.000Z"):
+        cases.append(("basic", f"{ts},3,127250,7,255,8,01,10,27,00,00,7f,ff,fd", "decode_basic_string"))
+    for ts in ("00:00:00.000", "23:59:59.999"):
+        cases.append(("yd", f"{ts} R 0DF11207 01 10 27 00 00 7F FF FD", "decode_yacht_devices_string"))
+    for fmt, line, meth in cases:
+        if only and (fmt, line) != tuple(only):
+            continue
+        d = Dec(build_network_map=True)
+        try:
+            m = getattr(d, meth)(line)
+        except Exception:  # noqa: BLE001
+            continue
+        if m is not None:
+            return {"key": "C11:discovery-text-timestamp", "kind": "c11-text", "fmt": fmt, "line": line,
+                    "what": f"network mapping on, decoder just built: PGN {m.PGN} from unclaimed source {m.source} is returned "
+                            f"through {meth} for the input stamped {line.split()[0] if fmt != 'basic' else line.split(',')[0]!r} "
+                            "(inside the discovery window)"}
+    return None
 
 
 def replay(ctx, data):
     w = data.get("witness", data)
+    if w.get("kind") == "c11-text":
+        r = discovery_text_oracle(ctx.rng, only=(w["fmt"], w["line"]))
+        print("expected: nothing from an unclaimed source inside the discovery window, whatever stamp the input carries")
+        print("observed:", r["what"] if r else "property holds on this input")
+        return r is not None
     if w.get("kind") != "c11":
         print("observed: not a C11 history witness")
         return False
